@@ -88,6 +88,9 @@ func (g *Gen) Mutate(root ygot.GoStruct, k int) []string {
 				return out
 			})
 			log = append(log, "permute "+where)
+		case op < 7 && f.Kind == KLeafList && fv.Len() > 0:
+			g.leafListPartial(sv, f, n.Path)
+			log = append(log, "leaflist-partial "+where)
 		case op < 7 && (f.Kind == KList) && !fv.IsNil():
 			// add entries: generate a fresh list and merge new keys in
 			old := reflect.MakeMap(fv.Type())
@@ -120,6 +123,60 @@ func (g *Gen) Mutate(root ygot.GoStruct, k int) []string {
 	// deferred leafref work is dropped: mutated trees need not satisfy leafrefs
 	g.deferred = nil
 	return log
+}
+
+// leafListPartial replaces a non-empty leaf-list by some of its old elements
+// followed by fresh ones (a partial overlap with the old value).
+func (g *Gen) leafListPartial(sv reflect.Value, f *FieldInfo, path []PathElem) {
+	fv := sv.Field(f.Idx)
+	old := fv
+	keep := 1 + g.Rng.Intn(old.Len())
+	out := reflect.MakeSlice(fv.Type(), 0, old.Len()+2)
+	seen := map[string]bool{}
+	for _, j := range g.Rng.Perm(old.Len())[:keep] {
+		c, _ := CanonScalar(old.Index(j), false)
+		seen[c] = true
+		out = reflect.Append(out, old.Index(j))
+	}
+	fresh := reflect.New(sv.Type()).Elem()
+	if g.setField(fresh, f, path, len(path)) {
+		nf := fresh.Field(f.Idx)
+		for j := 0; j < nf.Len(); j++ {
+			c, _ := CanonScalar(nf.Index(j), false)
+			if !seen[c] {
+				seen[c] = true
+				out = reflect.Append(out, nf.Index(j))
+			}
+		}
+	}
+	if la := f.Entry.ListAttr; la != nil && BoundedMax(la) && out.Len() > int(la.MaxElements) {
+		out = out.Slice(0, int(la.MaxElements))
+	}
+	fv.Set(out)
+}
+
+// LeafListOverlaps applies leafListPartial to each non-empty leaf-list of the
+// tree with probability p and returns the number of lists changed.
+func (g *Gen) LeafListOverlaps(root ygot.GoStruct, p float64) int {
+	g.root = reflect.ValueOf(root)
+	if g.enumMap == nil {
+		g.enumMap = enumTypeMap(root)
+	}
+	n := 0
+	for _, nd := range g.C.Nodes(root) {
+		if nd.Keyless && !g.Opt.Unkeyed {
+			continue
+		}
+		sv := nd.V.Elem()
+		for _, f := range nd.Info.Fields {
+			if f.Kind == KLeafList && f.LeafrefPath == "" && sv.Field(f.Idx).Len() > 0 && g.coin(p) {
+				g.leafListPartial(sv, f, nd.Path)
+				n++
+			}
+		}
+	}
+	g.deferred = nil
+	return n
 }
 
 // rebuildOrdered replaces the contents of an ordered map by f(values).
